@@ -127,7 +127,8 @@ def judge_groups(ctx: Ctx, groups, clauses=CLAUSES, kind="c03"):
 def model_groups(ctx: Ctx):
     """spec -> code: the cases of the exported TLC model, replayed on real Map objects."""
     U = rt.model_universe()
-    cases = [v for v in ctx.export(AREA, "MCRouting", "MCX_cases", count_states=False) if isinstance(v, dict) and "idx" in v]
+    cases = [v for cfg in (("MCX_cases",) if ctx.quick else ("MCX_cases", "MCX_zeros")) for v in ctx.export(AREA, "MCRouting", cfg, count_states=False)
+             if isinstance(v, dict) and "idx" in v]
     by = {}
     for v in cases:
         by.setdefault((tuple(v["idx"]), v["strict"], v["merge"]), []).append(("".join(map(chr, v["path"])), v["meth"], rt.NOQ))
@@ -157,8 +158,9 @@ def run(ctx: Ctx):
     ]
     # 1. model checking: implementation-shaped matcher model against the declarative contract
     ctx.model_check(AREA, "MCRouting", "MCQ_pairs", timeout=900)
+    ctx.model_check(AREA, "MCRouting", "MCQ_zeros", timeout=900)   # fixed_digits with leading zeros
     if not q:
-        for cfg in ("MCT_pairs", "MCT_triples", "MCT_toks"):
+        for cfg in ("MCT_pairs", "MCT_triples", "MCT_toks", "MCT_zeros"):
             ctx.model_check(AREA, "MCRouting", cfg, timeout=3000)
     # non-vacuity: the model of the matcher as it was before fix F19 violates the same invariant
     r = tlc.run_tlc(AREA, "MCRouting", "MCQ_orig", workers=ctx.workers, tmp=ctx.tmp, allow_violation=True, timeout=900)
